@@ -7,6 +7,7 @@
      time_util.later_than                                 = Model.later_than
      response.authn_response (skew plumbing)              = Model.timeslack
      StatusResponse.issue_instant_ok                      = Model.issue_instant_ok
+     StatusResponse._verify                               = Model.verify_ok (every delivery consults issue_instant_ok)
      AuthnResponse.authn_statement_ok / condition_ok /
        _bearer_confirmed / session_info                   = the four stages of Model.accept (m_* below;
                                                             [accept_by_parts]: accept IS their composition)
@@ -689,6 +690,77 @@ Section Clock.
   End Plumbing.
 End Clock.
 
+(* ================================================================== StatusResponse._verify
+   (coq/gen/C05Src2v.v; the float constant 2.0 handed in as an external value).  For a Response of version 2.0
+   parsed by an AuthnResponse (request_id 0): the Destination is looked at on the asynchronous path only (and only
+   when present), issue_instant_ok() and status_ok() are consulted on EVERY path.  [dest_class] is
+   Model.m_destination, [m_verify] answers "go on" exactly when Model.verify_ok does. *)
+Section Verify.
+  Variables issue_instant_ok_ status_ok float_ : pyval -> pyval.
+  Variable two : pyval.
+
+  Record vself := { v_irt : pyval; v_async : bool; v_addrs : list string; v_dest : option string;
+                    v_rest : list (string * pyval) }.
+  Definition enc_v (r : vself) : pyval :=
+    PObj ([("__class__", PStr "AuthnResponse"); ("request_id", PInt 0); ("in_response_to", v_irt r);
+           ("asynchop", PBool (v_async r)); ("return_addrs", PList (map PStr (v_addrs r)));
+           ("response", PObj [("__class__", PStr "Response"); ("version", PStr "2.0");
+                              ("destination", match v_dest r with Some d => PStr d | None => PNone end)])]
+          ++ v_rest r)%list.
+
+  Definition dest_class (r : vself) : option bool :=
+    match v_dest r with None => None | Some d => Some (existsb (String.eqb d) (v_addrs r)) end.
+
+  Definition m_verify (async : bool) (dest : option bool) (fresh : bool) (status : outcome) : pyval :=
+    if async && match dest with Some false => true | _ => false end then PNone
+    else if fresh then enc_outcome status else PBool false.
+
+  Lemma not_in_addrs d l : p2_not_in (PStr d) (PList (map PStr l)) = PBool (negb (existsb (String.eqb d) l)).
+  Proof.
+    unfold p2_not_in, p2_in, s2. cbn [py_bind].
+    assert (H : list_has (PStr d) (map PStr l) = Some (existsb (String.eqb d) l)).
+    { induction l as [|y r IH]; [reflexivity|]. cbn [map list_has existsb].
+      change (pv_eq (PStr d) (PStr y)) with (Some (String.eqb d y)). destruct (String.eqb d y); [reflexivity|exact IH]. }
+    rewrite H. reflexivity.
+  Qed.
+
+  Theorem src2_verify_is_model : forall r fresh status,
+    (forall d, v_dest r = Some d -> is_empty d = false) ->
+    issue_instant_ok_ (enc_v r) = PBool fresh -> status_ok (enc_v r) = enc_outcome status ->
+    src2_verify issue_instant_ok_ status_ok float_ two (enc_v r) = m_verify (v_async r) (dest_class r) fresh status.
+  Proof.
+    intros r fresh status Hd Hi Hs. cbv delta [src2_verify]; cbv beta zeta.
+    rewrite Hi, Hs.
+    change (p2_attr (enc_v r) "request_id") with (PInt 0).
+    change (p2_attr (p2_attr (enc_v r) "response") "version") with (PStr "2.0").
+    change (p2_attr (enc_v r) "asynchop") with (PBool (v_async r)).
+    change (p2_attr (p2_attr (enc_v r) "response") "destination")
+      with (match v_dest r with Some d => PStr d | None => PNone end).
+    change (p2_attr (enc_v r) "return_addrs") with (PList (map PStr (v_addrs r))).
+    change (p2_and (PInt 0) ?x) with (PInt 0).
+    change (p2_branch (PInt 0)) with BFalse. cbv iota.
+    change (p2_branch (p2_ne (PStr "2.0") (PStr "2.0"))) with BFalse. cbv iota.
+    unfold m_verify, dest_class. rewrite p2_branch_bool.
+    (* the rest is evaluation: every shape of the final `issue_instant_ok() and status_ok()` computes *)
+    destruct (v_async r); cbn [andb].
+    - destruct (v_dest r) as [d|] eqn:Ed.
+      + rewrite not_in_addrs. unfold p2_and at 1. cbn [py_truthy]. rewrite (Hd d eq_refl). cbn [negb].
+        rewrite p2_branch_bool. destruct (existsb (String.eqb d) (v_addrs r)); cbn [negb]; [|reflexivity].
+        destruct fresh, status as [n|b]; reflexivity.
+      + change (p2_branch (p2_and PNone ?x)) with BFalse. cbv iota. destruct fresh, status as [n|b]; reflexivity.
+    - destruct fresh, status as [n|b]; reflexivity.
+  Qed.
+
+  (* the answer is "go on" exactly when Model.verify_ok says so (and the status is Success) *)
+  Lemma m_verify_is_verify_ok n sl m :
+    py_truthy (m_verify (asynchop (m_binding m)) (m_destination m) (issue_instant_ok n sl (m_issue m)) (ORet true))
+    = verify_ok n sl m.
+  Proof.
+    unfold m_verify, verify_ok. destruct (asynchop (m_binding m)), (m_destination m) as [[|]|],
+      (issue_instant_ok n sl (m_issue m)); reflexivity.
+  Qed.
+End Verify.
+
 (* ================================================================== the hypotheses are satisfiable *)
 (* a text for every time stamp (sign and unary digits: the point is only that SOME injective rendering and its
    reader exist; the real rendering and reader are the subject of C05/Time.v) *)
@@ -768,3 +840,7 @@ Proof.
   exists (fun _ => PStr "sec"), (fun v => match v with PInt z => PInt z | PNone => PExc "TypeError" | _ => PErr end).
   repeat split.
 Qed.
+
+Example verify_instance : forall fresh status, exists issue_instant_ok_ status_ok : pyval -> pyval,
+  (forall v, issue_instant_ok_ v = PBool fresh) /\ (forall v, status_ok v = enc_outcome status).
+Proof. intros fresh status. exists (fun _ => PBool fresh), (fun _ => enc_outcome status). split; reflexivity. Qed.
